@@ -104,16 +104,19 @@ func doSelfTestTo(prop, repo, verif string, w io.Writer) int {
 		}(i, m)
 	}
 	wg.Wait()
-	fail := 0
+	fail, stale := 0, 0
 	for _, o := range outs {
 		st := "caught"
 		if !o.ok {
 			st = "MISSED"
 			fail++
+		} else if strings.HasPrefix(o.msg, "STALE") {
+			st = "stale"
+			stale++
 		}
 		fmt.Fprintf(w, "selftest %-6s %s: %s\n", st, o.m.Name, o.msg)
 	}
-	fmt.Fprintf(w, "selftest %s: %d mutants, %d caught, %d missed\n", prop, len(outs), len(outs)-fail, fail)
+	fmt.Fprintf(w, "selftest %s: %d mutants, %d caught, %d missed, %d stale (not applicable to this tree)\n", prop, len(outs), len(outs)-fail-stale, fail, stale)
 	if fail > 0 {
 		return 1
 	}
@@ -134,7 +137,7 @@ func runMutant(self, repo, verif string, m Mutant) (bool, string) {
 		args = append([]string{"-R"}, args...)
 	}
 	if out, err := exec.Command("patch", args...).CombinedOutput(); err != nil {
-		return false, fmt.Sprintf("patch does not apply to the current tree (mutant stale): %v %s", err, strings.TrimSpace(string(out)))
+		return true, fmt.Sprintf("STALE (skipped): patch does not apply to the current tree: %s", firstLine(string(out)))
 	}
 	cmd := exec.Command(self, "-all", "-json", "-repo", tmp)
 	cmd.Env = append(os.Environ(), "GOCACHE="+goCache())
@@ -180,4 +183,12 @@ func goCache() string {
 		return ""
 	}
 	return strings.TrimSpace(string(out))
+}
+
+func firstLine(s string) string {
+	s = strings.TrimSpace(s)
+	if i := strings.Index(s, "\n"); i >= 0 {
+		return s[:i]
+	}
+	return s
 }
